@@ -322,7 +322,7 @@ func (c *JSONClient) PostAndParseWithRetry(ctx context.Context, path string, req
 				// Retry-After may be either a number of seconds as a int or a RFC 1123
 				// date string (RFC 7231 Section 7.1.3)
 				if retryAfter := httpRsp.Header.Get("Retry-After"); retryAfter != "" {
-					if seconds, err := strconv.Atoi(retryAfter); err == nil {
+					if seconds, err := strconv.Atoi(retryAfter); err == nil && seconds >= 0 {
 						b := time.Duration(seconds) * time.Second
 						if int64(seconds) > math.MaxInt64/int64(time.Second) {
 							// Too long for a Duration: wait as long as possible rather than wrapping to a negative wait.
